@@ -851,3 +851,145 @@ func init() {
 		},
 	})
 }
+
+// ---- merge: inputs have their tables ----
+
+func init() {
+	register(&Rule{
+		ID: "C13-j", Template: "T4 permit-cut (a branch never ends up on a commit without its table)",
+		Doc: "Branches written by merge never point at a commit lacking its table: in every function of cmd/wrgl that computes a merge base (ref.SeekCommonAncestor) and writes a ref — directly or through a local helper that creates the merge commit — either every commit admitted to the merge (appended to the list handed to SeekCommonAncestor from a ref.InterpretCommitName result) is admitted only behind the 'exists' edge of objects.TableExist on that commit's table, or the write itself lies behind such an edge on every path. A shallow commit (fetched with --depth) has no table: fast-forwarding to it, or creating a --no-ff merge commit that reuses its table sum, leaves the branch unusable.",
+		Min: 2,
+		Run: func(p *Program, r *RuleResult) error {
+			sca, err := p.MustFuncs("pkg/ref.SeekCommonAncestor")
+			if err != nil {
+				return err
+			}
+			icn, err := p.MustFuncs("pkg/ref.InterpretCommitName")
+			if err != nil {
+				return err
+			}
+			te, err := p.MustFuncs("pkg/objects.TableExist")
+			if err != nil {
+				return err
+			}
+			writers, err := p.MustFuncs("pkg/ref.SaveRef", "pkg/ref.CommitMerge", "pkg/ref.CommitHead")
+			if err != nil {
+				return err
+			}
+			gt, err := p.MustFuncs("pkg/objects.GetTable")
+			if err != nil {
+				return err
+			}
+			getTbl := newSuccSummary(p, gt)
+			fns := p.FuncsInPkg("cmd/wrgl")
+			r.Analysed = len(fns)
+			// local helpers that write a ref
+			helper := map[*ssa.Function]bool{}
+			for _, fn := range fns {
+				if len(callsTo(fn, writers)) > 0 {
+					helper[fn] = true
+				}
+			}
+			for _, fn := range fns {
+				scas := callsTo(fn, sca)
+				if len(scas) == 0 {
+					continue
+				}
+				var sites []ssa.CallInstruction
+				eachCall(fn, func(c ssa.CallInstruction) {
+					if f := calleeFunc(c); f != nil && writers[f] {
+						sites = append(sites, c)
+						return
+					}
+					if sc := c.Common().StaticCallee(); sc != nil && sc != fn && helper[sc] {
+						sites = append(sites, c)
+					}
+				})
+				if len(sites) == 0 {
+					continue
+				}
+				// TableExist 'exists' edges, per InterpretCommitName call and overall
+				var allTE []edge
+				teOf := map[*ssa.Call][]edge{}
+				ics := callsTo(fn, icn)
+				for _, t := range callsTo(fn, te) {
+					tc, ok := t.(*ssa.Call)
+					if !ok {
+						continue
+					}
+					edges := boolEdges(fn, forward([]ssa.Value{tc}, fwdOpts{noBinOp: true}), true)
+					allTE = append(allTE, edges...)
+					if len(tc.Call.Args) < 2 {
+						continue
+					}
+					bs := backward(tc.Call.Args[1], nil)
+					for _, ic := range ics {
+						if call, ok := ic.(*ssa.Call); ok && bs[call] {
+							teOf[call] = append(teOf[call], edges...)
+						}
+					}
+				}
+				// loading a commit's table (objects.GetTable, directly or through a local
+				// helper) establishes its presence as well
+				eachCall(fn, func(c ssa.CallInstruction) {
+					if call, ok := c.(*ssa.Call); ok && getTbl.matches(call, wrapperDepth) {
+						allTE = append(allTE, successEdges(fn, call)...)
+					}
+				})
+				// admissions
+				admitted := true
+				var whyNot string
+				nAdm := 0
+				for _, sc := range scas {
+					args := sc.Common().Args
+					if len(args) < 2 {
+						continue
+					}
+					listVals := backward(args[len(args)-1], nil)
+					for v := range listVals {
+						ap, ok := v.(*ssa.Call)
+						if !ok || !isBuiltin(ap, "append") || len(ap.Call.Args) < 2 {
+							continue
+						}
+						els, ok := sliceLitElems(ap.Call.Args[1])
+						if !ok {
+							continue
+						}
+						for _, e := range els {
+							be := backward(e, nil)
+							for _, ic := range ics {
+								call, ok := ic.(*ssa.Call)
+								if !ok || !be[call] {
+									continue
+								}
+								nAdm++
+								if path, reach := reachAfter(fn, call, ap, mkCut(teOf[call]), nil); reach {
+									admitted = false
+									whyNot = fmtPath(fmt.Sprintf("the commit resolved at %s is admitted to the merge without objects.TableExist on its table", p.Rel(call.Pos())), path)
+								}
+							}
+						}
+					}
+				}
+				if nAdm == 0 {
+					admitted = false
+					whyNot = "no admission of a resolved commit found"
+				}
+				for _, s := range sites {
+					key := callKey(fn, s)
+					what := "ref written by merge points at a commit whose table exists"
+					if admitted {
+						r.okWhy(key, p.Rel(s.Pos()), what, "every commit admitted to the merge passed objects.TableExist")
+						continue
+					}
+					if path, reach := reachAfter(fn, nil, s, mkCut(allTE), nil); reach {
+						r.bad(key, p.Rel(s.Pos()), what, whyNot+"; and "+fmtPath("this write is reachable without any objects.TableExist 'exists' edge", path))
+					} else {
+						r.okWhy(key, p.Rel(s.Pos()), what, "the write itself lies behind objects.TableExist")
+					}
+				}
+			}
+			return nil
+		},
+	})
+}
